@@ -67,6 +67,13 @@ class MTok:
         return hash(("mtok", self.tok.id, self.mask))
 
 
+class FDiff:
+    """the difference of two independent generic float values: not zero and not small (the class 'two unrelated values')"""
+
+    def __repr__(self):
+        return "FDiff"
+
+
 class Wide:
     """little-endian integer made of byte slots (concrete 0..255, Tok or MTok)"""
     __slots__ = ("slots",)
@@ -411,6 +418,11 @@ class Mini:
     def binop0(self, op, a, b, ty):
         if op in ("And", "Or"):
             raise Unsupported("lazy bool handled elsewhere")
+        if op in ("Lt", "Le", "Gt", "Ge") and (isinstance(a, FDiff) or isinstance(b, FDiff)):
+            x, y, o = (a, b, op) if isinstance(a, FDiff) else (b, a, {"Lt": "Gt", "Le": "Ge", "Gt": "Lt", "Ge": "Le"}[op])
+            if isinstance(y, (int, float)) and not isinstance(y, bool) and 0 <= y <= 1e-3:
+                return o in ("Gt", "Ge")  # |difference of unrelated values| against a tolerance
+            raise Unsupported("comparison of a generic float difference")
         if op in ("Eq", "Ne", "Lt", "Le", "Gt", "Ge"):
             if isinstance(a, (Tok, Wide)) or isinstance(b, (Tok, Wide)):
                 other = b if isinstance(a, (Tok, Wide)) else a
@@ -447,6 +459,11 @@ class Mini:
                 w = to_wide(a, nbytes)
                 k = b // 8
                 return Wide((w.slots[k:] + [0] * k)[:nbytes])
+            if op == "Sub" and ty in ("f32", "f64") and isinstance(a, Wide) and isinstance(b, Wide) and a != b and not (set(map(repr, a.slots)) & set(map(repr, b.slots))):
+                return FDiff()
+            if op == "Sub" and type(a) is type(b) and a == b:
+                # the difference of a value and itself (for a float: of a finite value and itself)
+                return 0.0 if ty in ("f32", "f64") else 0
             if op in ("BitOr", "BitXor", "Add"):
                 x, y = to_wide(a, nbytes), to_wide(b, nbytes)
                 out = []
@@ -862,6 +879,10 @@ class Mini:
     def const(self, p):
         if p in getattr(self, "consts", {}):
             return self.consts[p]
+        if p in ("std::f32::EPSILON", "std::f32::<impl f32>::EPSILON", "core::f32::EPSILON"):
+            return 1.1920928955078125e-07
+        if p in ("std::f64::EPSILON", "std::f64::<impl f64>::EPSILON"):
+            return 2.220446049250313e-16
         if p.startswith("std::num::<impl ") and p.split("::")[-1] in ("MAX", "MIN"):
             ty = p.split("<impl ")[1].split(">")[0]
             bits = INT_BITS[ty]
@@ -1598,6 +1619,11 @@ class Mini:
             if recv == "None":
                 return "None"
             return ("Some", self.apply(args[0], [recv[1]]))
+        if p.startswith(("std::f32::<impl f32>::", "std::f64::<impl f64>::")) and nm == "abs" and not args:
+            if isinstance(recv, FDiff):
+                return recv
+            if isinstance(recv, (int, float)) and not isinstance(recv, bool):
+                return abs(recv)
         if p.startswith("std::f32::<impl f32>::") and nm in ("to_le_bytes", "to_be_bytes"):
             sl = to_wide(recv, 4).slots
             return sl if nm == "to_le_bytes" else sl[::-1]
